@@ -307,9 +307,11 @@ def norm_err(err):
 def crash_site(status, err):
     m = re.search(r'ERROR: AddressSanitizer: ([a-z-]+)', err)
     if m:
-        f = re.search(r'#0 0x[0-9a-f]+ in (\w+)', err)
-        frames = re.findall(r'#\d+ 0x[0-9a-f]+ in (\w+) [^\n]*/(?:src|repo)/', err)
-        return 'asan:%s@%s' % (m.group(1), frames[0] if frames else (f.group(1) if f else '?'))
+        # use-after-free: the root cause is named by the function that freed; otherwise by the faulting function
+        part = err.split('freed by thread', 1)[1] if 'freed by thread' in err else err
+        frames = re.findall(r'#\d+ 0x[0-9a-f]+ in (\w+) \S*/(?:build/[0-9a-f]{16}/src|harness)/(\w+\.c)', part)
+        frames = [f for f in frames if f[1] != 'util.c'] or frames
+        return 'asan:%s:%s-%s' % (m.group(1), 'freed-in' if part is not err else 'in', frames[0][0] if frames else '?')
     m = re.search(r'(\w+\.c):(\d+):\d+: runtime error: ([a-z -]+)', err)
     if m:
         return 'ubsan:%s@%s' % (m.group(3).strip().replace(' ', '-')[:40], m.group(1))
@@ -342,11 +344,24 @@ def diffsig(exp, got, defined):
     return 'different-token'
 
 
+def asan_probe(rec):
+    """Crash-site class the sanitized build reports for the case, or None."""
+    try:
+        srv = fs.server('fs-asan')
+        src = rec['src'].encode('latin-1')
+        r = srv.compile(src, pp=True, cpu_s=5) if rec['mode'] == 'E' else srv.tokens(src, cpu_s=5)
+    except Exception:
+        return None
+    if r.status in (0, 1):
+        return None
+    return crash_site(r.status, r.err.decode(errors='replace')[:8000])
+
+
 def family(rec):
     st = rec['obs_status']
     mode = rec['mode']
     if st not in (0, 1):
-        return 'crash/' + crash_site(st, rec['obs_text'])
+        return 'crash/' + (asan_probe(rec) or crash_site(st, rec['obs_text']))
     if 'funclike-name-then-directive' in rec['flags']:
         return 'directive-not-recognised-after-funclike-name-at-end-of-line'
     if mode == 'tokens' and st == 0:
@@ -369,6 +384,11 @@ def family(rec):
         return 'wrong-expansion/second-expansion-of-macro-whose-body-contains-a-keyword'
     if 'uninvoked-funclike-name-followed-by-funclike-name' in rec['flags']:
         return 'wrong-expansion/funclike-name-directly-after-uninvoked-funclike-name'
+    site = asan_probe(rec)
+    if site:
+        return 'crash/' + site      # the wrong output is what a memory error looks like in the plain build
+    if 'funclike-name-ends-replacement-list' in rec['flags']:
+        return 'wrong-expansion/funclike-name-ending-a-replacement-list'
     extra = ''
     if 'args-span-lines' in rec['flags'] and sig.startswith('stringification'):
         extra = '/argument-spans-lines'
@@ -546,7 +566,7 @@ def m3_variadic():
 KEYWORD_CASES = [
     '#define X int\nX X\n', '#define X int\nX y; X z;\n', '#define T unsigned long\nT T\nT\n', '#define R(a) return a\nR(1); R(2);\n',
     '#define W while\nW W W\n', '#define X int\n#define Y X\nY Y X\n', '#define S(a) sizeof(a)\nS(int) S(int)\n',
-    '#define X int\nX\n', '#define I(a) a\nI(int) I(int)\n', '#define X _Bool\nX X\n',
+    '#define X int\nX\n', '#define I(a) a\nI(int) I(int)\n', '#define X char\nX X\n',
 ]
 
 DEFINITION_CASES = [
@@ -575,7 +595,8 @@ DEFINITION_CASES = [
     '#define f(a) a\nf(f)(1)\n', '#define f(a) a\nf(f(f(1)))\n', '#define f(a) a a\nf(f(1))\n', '#define g f\n#define f(a) a\ng(1) g (2) g\n(3)\n',
     '#define f(a) #a\nf("\\\\") f(\'\\\\\') f("\\"") f(\'"\') f(\'\\\'\')\n', '#define f(a) a\n#define g f\n#define h g(\nh 1) h 2)\n',
     '#define AA BB\n#define BB AA\nAA BB\n', '#define AA BB\n#define BB CC\n#define CC AA\nAA BB CC AA\n', '#define f(a) a+1\n-f(-1) f(+)+ f(x)x\n',
-    '#define f(a) (a)\n#define g(a) f(a)f(a)\ng(g(1))\n', '#define f(a,b) b a\nf(f(1,2),f(3,4))\n', '#define c(a,b) a b\n#define l (\n#define r )\nc l 1,2 r\n',
+    '#define f(a) (a)\n#define g(a) f(a)f(a)\ng(g(1))\n', '#define t(a) a\n#define f(a) [a]\nt(f) x\n', '#define t(a) a\n#define f(a) [a]\nt(f)(0)\n',
+    '#define t(a) a\n#define f(a) [a]\nt(t(f) )(0) t(f)\n', '#define t(a,b) b a\n#define f(a) [a]\nt(1,2 f) (3)\n', '#define f(a,b) b a\nf(f(1,2),f(3,4))\n', '#define c(a,b) a b\n#define l (\n#define r )\nc l 1,2 r\n',
 ]
 
 DIRECTIVE_ADJACENT = [
@@ -626,34 +647,42 @@ D_PROLOGUE = 'int x, a, b, y; int f(), g();\n'
 
 
 def _d_job(cases):
-    """cases: (defs, text, expanded-text).  IL of `int v = TEXT;` with macros vs IL with the expanded text."""
+    """cases: (defs, text, expanded-text).  `int v = TEXT;` compiled with the macros must behave like the same program
+    with the expanded text: same IL bytes if that is valid, rejected if that is rejected."""
     srv = fs.server('fs')
-    res = {'n': 0, 'valid': 0, 'mism': [], 'runs': 0}
-    valid = {}
-    ok = []
+    res = {'n': 0, 'valid': 0, 'mism': [], 'runs': 0, 'pp_disagrees': 0}
+    ref = {}
     for defs, text, exp in cases:
-        v = valid.get(exp)
+        v = ref.get(exp)
         if v is None:
             r = srv.compile((D_PROLOGUE + 'int h(void) { int v = %s; return v; }\n' % exp).encode('latin-1'), cpu_s=2)
             res['runs'] += 1
-            v = valid[exp] = (r.status, r.out)
+            v = ref[exp] = (r.status, r.out)
         res['n'] += 1
-        if v[0] == 0:
-            res['valid'] += 1
-            ok.append((defs, text, exp, v[1]))
-    for defs, text, exp, il in ok:
+        if v[0] not in (0, 1):
+            continue   # the expanded program itself crashes the compiler: not a macro matter (C19)
+        res['valid'] += v[0] == 0
         src = D_PROLOGUE + defs + 'int h(void) { int v = %s; return v; }\n' % text
         r = srv.compile(src.encode('latin-1'), cpu_s=2)
         res['runs'] += 1
-        if r.status != 0 or r.out != il:
-            res['mism'].append({'src': src, 'expanded': exp, 'status': r.status, 'err': r.err.decode(errors='replace')[-500:],
-                                'il': r.out.decode('latin-1')[-600:], 'il_expected': il.decode('latin-1')[-600:]})
+        if r.status == v[0] and (r.status == 1 or r.out == v[1]):
+            continue
+        # a preprocessor disagreement already visible in tokens mode is reported by the M strata under its own family
+        t = srv.tokens((defs + text + '\n').encode('latin-1'), cpu_s=2)
+        res['runs'] += 1
+        want = tuple(cppref.relex(exp))
+        got = tuple((CLS.get(k[0], k[0]), k[1].decode('latin-1')) for k in fs.parse_tokens(t.out)) if t.status == 0 else None
+        if got != want:
+            res['pp_disagrees'] += 1
+            continue
+        res['mism'].append({'src': src, 'expanded': exp, 'status': r.status, 'err': r.err.decode(errors='replace')[-500:],
+                            'il': r.out.decode('latin-1')[-600:], 'il_expected': v[1].decode('latin-1')[-600:], 'want_status': v[0]})
     return res
 
 
 def d_cases(chk):
     """A fixed sub-space: M1-shaped tables with bodies <= 2 and texts <= 3 whose expansion the model accepts."""
-    body_alpha = ('f', 'x', 'a', '(', ')', ',')
+    body_alpha = ('f', 'x', 'a', '(', ')', '+')
     cases = []
     nst = cppref.Stats()
     for (kname, params) in M1_KINDS[:4]:
@@ -692,7 +721,7 @@ def _asan_job(srcs):
         for mode in ('tokens', 'E'):
             r = srv.tokens(s.encode('latin-1'), cpu_s=5) if mode == 'tokens' else srv.compile(s.encode('latin-1'), pp=True, cpu_s=5)
             if r.status not in (0, 1):
-                out.append((s, mode, r.status, r.err.decode(errors='replace')[-3000:]))
+                out.append((s, mode, r.status, r.err.decode(errors='replace')[:6000]))
                 break
     return len(srcs), out
 
@@ -819,6 +848,10 @@ def main(chk):
         completed[name] = '%d/%d jobs' % (done, len(jobs))
         chk.log('%s: %s, cases so far %s, compiler runs %d, mismatch families %d' % (name, completed[name], tot['n'], tot['runs'], len(mism)))
 
+    if not q:
+        # thorough: stop enumerating after 25 minutes so that witness and evidence fit into 30
+        chk.deadline = min(chk.deadline, chk.t0 + 1500)
+
     # ---- sanity of the witness plumbing (R and cpp must both give the expected observation)
     for src, want in SANITY:
         o, al = cppref.allowed(src)
@@ -834,6 +867,49 @@ def main(chk):
     if chk.want('M4'):
         srcs = list(m4_sources(3 if q else 4))
         run_jobs('M4', [('SRC', 'M4', c) for c in chunks(srcs, 400)])
+
+    # ---- D
+    d_tot = {'n': 0, 'valid': 0, 'runs': 0, 'pp_disagrees': 0}
+    if chk.want('D') and not chk.expired():
+        texts_for(M1_TEXT, 3)
+        cases, nst = d_cases(chk)
+        stats.merge(nst)
+        it = fs.pimap(_d_job, list(chunks(cases, 400)))
+        try:
+            for res in it:
+                for k in d_tot:
+                    d_tot[k] += res[k]
+                for m in res['mism']:
+                    chk.violation('D/il-differs-from-expanded-program',
+                                  'program with macros (status %d %s) does not compile like its expansion %r (status %d)' % (
+                                      m['status'], m['err'].strip(), m['expanded'], m['want_status']),
+                                  files={'input.c': m['src'].encode('latin-1'), 'expanded.txt': m['expanded'].encode('latin-1')},
+                                  cmd='$CPROC_QBE input.c', detail='got:\n%s\nexpected:\n%s' % (m['il'], m['il_expected']))
+                if chk.expired():
+                    break
+        finally:
+            it.close()
+        chk.log('D: %d programs (%d with a valid expansion), %d compiler runs, %d skipped because tokens mode already disagrees' % (d_tot['n'], d_tot['valid'], d_tot['runs'], d_tot['pp_disagrees']))
+
+    # ---- ASan subset
+    asan_n = 0
+    if chk.want('asan') and not chk.expired():
+        srcs = KEYWORD_CASES + DEFINITION_CASES + DIRECTIVE_ADJACENT + EX6 + [EX3_DEFS + EX3_TEXT, EX4_DEFS + EX4_TEXT, EX7_DEFS + EX7_TEXT]
+        srcs += list(m4_sources(2)) + list(m3_variadic())[::7]
+        # a small exhaustive space of its own: f, g of kinds object / (a), bodies <= 1, every text <= 3
+        abody = [(k, b) for k in M2_KINDS for b in words(('f', 'g', 'a', '(', ')'), 1)]
+        atexts = texts_for(('f', 'g', 'x', '(', ')'), 3 if not q else 2) + [('g', '(', 'f', ')', 'x'), ('g', '(', 'g', '(', 'f', ')', ')', '(', 'x', ')')]
+        for fd in abody:
+            for gd in abody:
+                d = defline('f', fd[0][1], fd[1]) + defline('g', gd[0][1], gd[1])
+                srcs += [d + compact(w) + '\n' for w in atexts]
+        for n, bad in fs.pmap(_asan_job, list(chunks(srcs, 40))):
+            asan_n += n
+            for s, mode, status, err in bad:
+                chk.violation('crash/' + crash_site(status, err), 'sanitized build, %s mode: status %d on %r' % (mode, status, s),
+                              files={'input.c': s.encode('latin-1'), 'stderr.txt': err.encode()},
+                              cmd='# needs the ASan build: vlib.build.get("asan")\n$CPROC_QBE -E input.c', detail=err[-1500:])
+        chk.log('asan: %d inputs' % asan_n)
 
     # ---- M2
     if chk.want('M2') and not chk.expired():
@@ -853,42 +929,6 @@ def main(chk):
         texts_for(*tkey)
         tables = [(k, b) for b in words(M1_BODY, 2 if q else 3) for k in M1_KINDS]
         run_jobs('M1', [('M1', c, tkey, 4) for c in chunks(tables, 2 if q else 1)])
-
-    # ---- D
-    d_tot = {'n': 0, 'valid': 0, 'runs': 0}
-    if chk.want('D') and not chk.expired():
-        texts_for(M1_TEXT, 3)
-        cases, nst = d_cases(chk)
-        stats.merge(nst)
-        it = fs.pimap(_d_job, list(chunks(cases, 400)))
-        try:
-            for res in it:
-                for k in d_tot:
-                    d_tot[k] += res[k]
-                for m in res['mism']:
-                    chk.violation('D/il-differs-from-expanded-program',
-                                  'IL of the program with macros differs from the IL of its expansion (%s): status %d %s' % (
-                                      m['expanded'], m['status'], m['err'].strip()),
-                                  files={'input.c': m['src'].encode('latin-1'), 'expanded.txt': m['expanded'].encode('latin-1')},
-                                  cmd='$CPROC_QBE input.c', detail='got:\n%s\nexpected:\n%s' % (m['il'], m['il_expected']))
-                if chk.expired():
-                    break
-        finally:
-            it.close()
-        chk.log('D: %d programs, %d with a valid expanded form compared, %d compiler runs' % (d_tot['n'], d_tot['valid'], d_tot['runs']))
-
-    # ---- ASan subset
-    asan_n = 0
-    if chk.want('asan') and not chk.expired():
-        srcs = KEYWORD_CASES + DEFINITION_CASES + DIRECTIVE_ADJACENT + EX6 + [EX3_DEFS + EX3_TEXT, EX4_DEFS + EX4_TEXT, EX7_DEFS + EX7_TEXT]
-        srcs += list(m4_sources(2)) + list(m3_variadic())[::7]
-        for n, bad in fs.pmap(_asan_job, list(chunks(srcs, 40))):
-            asan_n += n
-            for s, mode, status, err in bad:
-                chk.violation('crash/' + crash_site(status, err), 'sanitized build, %s mode: status %d on %r' % (mode, status, s),
-                              files={'input.c': s.encode('latin-1'), 'stderr.txt': err.encode()},
-                              cmd='# needs the ASan build: vlib.build.get("asan")\n$CPROC_QBE -E input.c', detail=err[-1500:])
-        chk.log('asan: %d inputs' % asan_n)
 
     # ---- second witness on every disagreement
     recs = [r for lst in mism.values() for r in lst]
@@ -934,7 +974,7 @@ def main(chk):
     cov = {
         'states': len(stats.states),
         'transitions': len(stats.transitions),
-        'traces_validated_against_impl': evaluations + d_tot['valid'],
+        'traces_validated_against_impl': evaluations + d_tot['n'] + asan_n,
         'samples': samples,
         'evaluations': evaluations,
         'distinct_nontrivial': len(distinct),
@@ -947,7 +987,8 @@ def main(chk):
         'strata_completed': completed,
         'e_text_cases': tot['e_n'],
         'd_programs': d_tot['n'],
-        'd_programs_compared': d_tot['valid'],
+        'd_programs_with_valid_expansion': d_tot['valid'],
+        'd_programs_skipped_preprocessor_already_disagrees': d_tot['pp_disagrees'],
         'asan_inputs': asan_n,
         'compiler_runs': tot['runs'] + d_tot['runs'],
         'unspecified_6_10_3_4p4_cases': tot['unspec'],
